@@ -148,8 +148,9 @@ CLAIMED["C07"] = dict(
          "time-independent formula for the same Lambda (last time index): tdTerm_zero, tdTensor_zero, tdTerm_eq_loopTerm, "
          "tdTensor_eq_redfieldTensor. Partial: that the running spline integral is empty at t0 and is the full integral at the last "
          "index is a contract checked numerically; the analytic pure-dephasing comparison (time-step error) is measured, not proved.",
-    note="Lean kernel + standard axioms; model validated on generated inputs; spline quadrature / c2g are externals. Known finding "
-         "(open): time-dependent OPERATOR-form propagation on an axis coarser than the bath axis samples the tensor at wrong times.",
+    note="Lean kernel + standard axioms; model validated on generated inputs; spline quadrature / c2g are externals. The former "
+         "finding (time-dependent operator-form propagation on an axis coarser than the bath axis sampled the tensor at wrong times) is "
+         "repaired in /repo (f3e9e73) and stays under watch by the ops-vs-tensor oracle.",
     technique="Lean 4 algebraic identity + congruence of the propagation loops + correspondence and API oracle",
     ref="DESIGN.md §5 C07")
 
